@@ -34,6 +34,7 @@ structure Cfg where
   defPer : Nat
   validatesRanges : Bool -- the SDK client refuses server ranges that do not partition 1..allIslands
   cacheKeyedByN : Bool   -- the per-object island cache remembers the N it was computed for
+  unroutedIsError : Bool -- GetServiceClient hands out a client that fails with an error for an island without a route (not nil)
   deriving DecidableEq, Repr
 
 /-- both sides add 1 and the server computes on 16 bits -/
